@@ -426,6 +426,37 @@ def level3(tier, seed=0, coarse=False):
                     yield st
 
 
+def two_dynamic_parts(tier, seed=0, coarse=False):
+    """Structs with two dynamic fields and a fixed block after each: dyn A, x, dyn B, y.  The alignment of the block
+    after A must not leak into / from the block after B (the blocks have different greatest alignments)."""
+    reg = dict(BASE_HELPERS)
+    reg['DY1'] = S.Struct('DY1', [S.M('x', 'u8', S.DYNAMIC)])
+    reg['DY2'] = S.Struct('DY2', [S.M('h', 'u16'), S.M('x', 'u16', S.DYNAMIC)])
+    reg['DY8'] = S.Struct('DY8', [S.M('x', 'u8', S.DYNAMIC), S.M('t', 'u64')])
+    reg['DYD'] = S.Struct('DYD', [S.M('d', 'DY1'), S.M('t', 'u8')])
+    dyn = [('plain', 'DY1'), ('plain', 'DY2'), ('dynamic', 'u8'), ('dynamic', 'bytes'), ('plain', 'DY8'), ('plain', 'DYD'),
+           ('dynamic', 'u16'), ('ext', 'u8', 'u8'), ('dynamic', 'DY1')]
+    if coarse and tier == 'quick':
+        dyn = dyn[:4]
+    elif tier == 'quick':
+        dyn = dyn[:6]
+    blocks = [(('plain', 'u8'), ('plain', 'u16')), (('plain', 'u8'), ('plain', 'u32')), (('plain', 'u8'), ('plain', 'u64')),
+              (('plain', 'u16'), ('plain', 'u64')), (('plain', 'u32'), ('plain', 'u64')), (('plain', 'u64'), ('plain', 'u8')),
+              (('plain', 'u32'), ('plain', 'u16')), (('plain', 'u8'), ('opt', 'u8')), (('opt', 'u16'), ('plain', 'u64')),
+              (('plain', 'u8'), ('plain', 'u8'))]
+    for a in dyn:
+        for b in dyn:
+            for x, y in blocks:
+                yield mk_state('struct', (a, x, b, y), reg)
+    if tier == 'thorough':
+        # three dynamic parts
+        for a in dyn[:4]:
+            for x, y, z in ((('plain', 'u8'), ('plain', 'u32'), ('plain', 'u64')), (('plain', 'u64'), ('plain', 'u16'), ('plain', 'u8')),
+                            (('plain', 'u16'), ('plain', 'u64'), ('plain', 'u32'))):
+                for b in dyn[:4]:
+                    yield mk_state('struct', (a, x, b, y, a, z), reg)
+
+
 def all_states(tier, seed=0, levels=(1, 2, 3), cells=True, coarse=False):
     seen = set()
     gens = []
@@ -437,6 +468,7 @@ def all_states(tier, seed=0, levels=(1, 2, 3), cells=True, coarse=False):
         gens.append(level2(tier, seed, coarse))
     if 3 in levels:
         gens.append(level3(tier, seed, coarse))
+        gens.append(two_dynamic_parts(tier, seed, coarse))
     for g in gens:
         for st in g:
             if st.key not in seen:
